@@ -44,9 +44,9 @@ macro_rules! fail_read {
 }
 fail_read!(q_h10rd__tkhd_v0, 4, TkhdBox, any_tkhd(0), ref_tkhd, 100);
 fail_read!(q_h10rd__stts_e1, 5, SttsBox, any_stts::<1>(), ref_stts, 32);
-fail_read!(q_h10rd__stsc_e2, 6, StscBox, any_stsc::<2>(), ref_stsc, 48);
+fail_read!(t_h10rd__stsc_e2, 6, StscBox, any_stsc::<2>(), ref_stsc, 48);
 fail_read!(q_h10rd__tfhd_opt39, 4, TfhdBox, any_tfhd(0x39), ref_tfhd, 48);
-fail_read!(q_h10rd__trun_opt301_n1, 12, TrunBox, any_trun::<1>(0x301), ref_trun, 40);
+fail_read!(t_h10rd__trun_opt301_n1, 12, TrunBox, any_trun::<1>(0x301), ref_trun, 40);
 fail_read!(t_h10rd__mvhd_v1, 4, MvhdBox, any_mvhd(1), ref_mvhd, 128);
 fail_read!(t_h10rd__elst_v1_e1, 5, ElstBox, any_elst::<1>(1), ref_elst, 48);
 fail_read!(t_h10rd__co64_e2, 19, Co64Box, any_co64::<2>(), ref_co64, 40);
@@ -146,9 +146,11 @@ macro_rules! fail_write {
         }
     };
 }
-fail_write!(q_h10wr__tkhd_v1, 4, TkhdBox, any_tkhd(1), 112);
-fail_write!(q_h10wr__stts_e2, 6, SttsBox, any_stts::<2>(), 40);
-fail_write!(q_h10wr__mvhd_v0, 27, MvhdBox, any_mvhd(0), 116);
+fail_write!(t_h10wr__tkhd_v1, 4, TkhdBox, any_tkhd(1), 112);
+fail_write!(q_h10wr__stts_e1, 5, SttsBox, any_stts::<1>(), 32);
+fail_write!(t_h10wr__stts_e2, 6, SttsBox, any_stts::<2>(), 40);
+fail_write!(q_h10wr__mfhd, 4, MfhdBox, any_mfhd(), 24);
+fail_write!(t_h10wr__mvhd_v0, 27, MvhdBox, any_mvhd(0), 116);
 fail_write!(q_h10wr__tfhd_opt39, 4, TfhdBox, any_tfhd(0x39), 48);
 fail_write!(t_h10wr__stsc_e2, 6, StscBox, any_stsc::<2>(), 48);
 fail_write!(t_h10wr__trun_opt301_n2, 6, TrunBox, any_trun::<2>(0x301), 48);
@@ -195,7 +197,7 @@ fn q_h10wr__write_sample_and_flush() {
 /// through a failing writer.
 #[kani::proof]
 #[kani::unwind(27)]
-fn q_h10wr__writer_start_end() {
+fn t_h10wr__writer_start_end() {
     let cfg = Mp4Config { major_brand: FourCC::from(*b"isom"), minor_version: 1, compatible_brands: Vec::new(), timescale: 1000 };
     let mut out = [0u8; 192];
     let k: u32 = kani::any();
@@ -258,8 +260,9 @@ macro_rules! short_read {
         }
     };
 }
-short_read!(q_h10short__rd_stts_e1, 10, SttsBox, any_stts::<1>(), ref_stts, 32);
-short_read!(q_h10short__rd_tfdt_v1, 10, TfdtBox, any_tfdt(1), ref_tfdt, 28);
+short_read!(t_h10short__rd_stts_e1, 10, SttsBox, any_stts::<1>(), ref_stts, 32);
+short_read!(q_h10short__rd_mfhd, 10, MfhdBox, any_mfhd(), ref_mfhd, 24);
+short_read!(t_h10short__rd_tfdt_v1, 10, TfdtBox, any_tfdt(1), ref_tfdt, 28);
 short_read!(t_h10short__rd_tkhd_v0, 10, TkhdBox, any_tkhd(0), ref_tkhd, 100);
 
 /// Short writes: at most c bytes accepted per call, one interrupted call: same bytes as plain.
@@ -292,6 +295,7 @@ macro_rules! short_write {
         }
     };
 }
-short_write!(q_h10short__wr_stts_e1, 10, SttsBox, any_stts::<1>(), ref_stts, 32);
-short_write!(q_h10short__wr_mvhd_v0, 27, MvhdBox, any_mvhd(0), ref_mvhd, 116);
+short_write!(t_h10short__wr_stts_e1, 10, SttsBox, any_stts::<1>(), ref_stts, 32);
+short_write!(q_h10short__wr_mfhd, 10, MfhdBox, any_mfhd(), ref_mfhd, 24);
+short_write!(t_h10short__wr_mvhd_v0, 27, MvhdBox, any_mvhd(0), ref_mvhd, 116);
 short_write!(t_h10short__wr_tkhd_v1, 10, TkhdBox, any_tkhd(1), ref_tkhd, 112);
